@@ -283,6 +283,9 @@ func (m *Machine) specFrom(fr *frame, st *specState, b, pred *ssa.BasicBlock, gu
 			return m.specFrom(fr, st, b.Succs[0], b, guard)
 		case *ssa.If:
 			c := fr.get(in.Cond).(*Term)
+			if v, ok := m.decideByMask(c); ok {
+				c = m.f.Bool(v)
+			}
 			if c.IsConst() {
 				if c.c == 1 {
 					return m.specFrom(fr, st, b.Succs[0], b, guard)
